@@ -722,3 +722,77 @@ def ctor_outcome(c):
         except Exception as e:  # noqa: BLE001
             return "query:" + type(e).__name__
     return "ok"
+
+
+# ------------------------------------------------------------------------------------------
+# C04 on deep trees: one seed set per node, and the W-law on long solver-shaped histories
+# ------------------------------------------------------------------------------------------
+
+def collect_seeds(bm):
+    """All PRNG seeds held by the tree: 4 per internal node (+ the top-level Levy seed).  Observation aid:
+    returns None if the attributes do not exist."""
+    try:
+        seeds = []
+        depth_max = 0
+        stack = [(bm, 0)]
+        while stack:
+            node, d = stack.pop()
+            depth_max = max(depth_max, d)
+            if node._midway is not None:
+                seeds += [int(node._W_seed), int(node._H_seed), int(node._left_a_seed), int(node._right_a_seed)]
+                stack.append((node._left_child, d + 1))
+                stack.append((node._right_child, d + 1))
+        return seeds, depth_max
+    except AttributeError:
+        return None
+
+
+def deep_law(n, cache_size, dt_hint, levy="none", K=None, backward=False, tol=2e-12):
+    """n equal sequential steps on [0,1] with the real warm-up constant, labelled noise: the Gram matrix of the
+    step increments must be (1/n) * identity (disjoint intervals independent, Var = length), the sum of all
+    steps must be the root increment, and all seeds in the tree must be pairwise distinct."""
+    fails = []
+    K = K or (8 * n + 64)
+    kw = dict(t0=0.0, t1=1.0, size=(K,), dtype=torch.float64, entropy=4242, cache_size=cache_size,
+              levy_area_approximation=levy)
+    if dt_hint:
+        kw["dt"] = 1.0 / n
+    with LabelledNoise(K) as ln, warnings.catch_warnings():
+        warnings.simplefilter("ignore")
+        try:
+            bm = torchsde.BrownianInterval(**kw)
+            vecs = []
+            for k in range(n):
+                vecs.append(bm(k / n, (k + 1) / n))
+            if backward:
+                for k in reversed(range(n)):
+                    w = bm(k / n, (k + 1) / n)
+                    if not torch.equal(w, vecs[k]):
+                        fails.append(("deep_repeat", dict(step=k)))
+                        break
+            root = bm(0.0, 1.0)
+        except Exception as e:  # noqa: BLE001
+            return [("exception", dict(exc=type(e).__name__, msg=str(e)[:200]))], {}
+        if ln.overflow:
+            return [("machinery_label_overflow", dict(K=K, labels=len(ln.labels)))], {}
+    V = torch.stack(vecs)                     # (n, K)
+    G = V @ V.T
+    want = torch.eye(n, dtype=torch.float64) / n
+    err = float((G - want).abs().max())
+    info = dict(n=n, gram_max_err=err, labels=len(ln.labels))
+    if err > tol:
+        i, j = divmod(int((G - want).abs().argmax()), n)
+        fails.append(("law_deep", dict(n=n, i=i, j=j, got=float(G[i, j]), want=float(want[i, j]), cache_size=cache_size,
+                                       dt_hint=dt_hint)))
+    tot = V.sum(0)
+    if float((tot - root).abs().max()) > 64 * EPS:
+        fails.append(("sum_of_steps", dict(err=float((tot - root).abs().max()))))
+    sd = collect_seeds(bm)
+    if sd is not None:
+        seeds, depth = sd
+        info["tree_depth"] = depth
+        info["seeds"] = len(seeds)
+        if len(set(seeds)) != len(seeds):
+            fails.append(("seed_collision", dict(n=n, seeds=len(seeds), distinct=len(set(seeds)), depth=depth,
+                                                 cache_size=cache_size, dt_hint=dt_hint)))
+    return fails, info
